@@ -18,7 +18,8 @@ DEVS = {"KMEANS_IGNORES_RANDOM_STATE": INV + PROPS,
         "GMM_KMEANS_UNSEEDED": ["RandomnessComesFromOwnSeed"],
         "UVD_NOT_RESEEDED": INV + PROPS,
         "WCCN_DEPENDS_ON_LABEL_ORDER": ["ResultIsFunctionOfMultisetAndSeed"],
-        "ACC_IGNORES_CLASS_ID": ["ResultIsFunctionOfMultisetAndSeed"]}
+        "ACC_IGNORES_CLASS_ID": ["ResultIsFunctionOfMultisetAndSeed"],
+        "LOOP_BOOKKEEPING_SURVIVES_FIT": ["ResultIsFunctionOfMultisetAndSeed", "HistoryIndependent"]}
 KMEANS_DEFAULT_SEED = 0     # KMeansMachine(..., random_state=0) in the signature
 
 
@@ -45,7 +46,8 @@ def model_run(ck, name, maxlen, ests=ALL, seeds=(0, 1), pseeds=(0, 1), orders=(1
 def parse_step(t):
     if t[0] == "Fit":
         return {"a": "Fit", "e": t[1], "c": t[2], "d": t[3], "o": t[4], "p": t[5], "r": t[6],
-                "toks": [tuple(x) for x in t[7]], "odep": t[8], "pdep": t[9], "ga": (t[10], t[11])}
+                "toks": [tuple(x) for x in t[7]], "odep": t[8], "pdep": t[9], "ga": (t[10], t[11]),
+                "ob": t[12] if len(t) > 12 else "fresh"}
     return {"a": t[0], "r": t[1], "ga": (t[2], t[3])}
 
 
@@ -98,7 +100,8 @@ class Problems:
         # trained model really depends on which samples the seeded initialiser picks
         per = 4 if d % 2 else 5
         corners = np.array([[0, 0], [1, 0], [0, 1], [1, 1]], float) * 4
-        X = np.concatenate([c + (0.3 if d % 2 else 0.45) * rs.randn(per, 2) for c in corners])
+        # (even d: overlapping blobs, so that the second k-means iteration still moves the centroids)
+        X = np.concatenate([c + (0.3 if d % 2 else 1.3) * rs.randn(per, 2) for c in corners])
         pr["X"] = X[rs.permutation(len(X))]
         pr["init"] = np.array([[0.3, 2.1], [3.8, 1.9]]) if d % 2 else np.array([[2.1, 0.2], [1.9, 3.7]])
         pr["km_iter"] = 3 if d % 2 else 2
@@ -150,26 +153,58 @@ def _gap():
         np.random.rand(GAP[0])
 
 
-def fit(em, probs, e, c, variant, d, o, p, r):
-    """Builds the estimator afresh with random_state=r and fits it; returns the public parameters."""
+def _coinciding_scale(make_km, XA, XB, wrap):
+    """The unit in which the earlier data set A is expressed: chosen so that the criterion its k-means training ends
+    with equals the criterion of the FIRST iteration on B (what a loop that kept its previous criterion on the object
+    would compare with).  Public API only; a few fixed-point steps (exact at once for a seeded draw of indices)."""
+    m1 = make_km(1)
+    m1.fit(wrap(XB))
+    target = float(m1.average_min_distance)
+    sc = 1.0
+    for _ in range(4):
+        mA = make_km(None)
+        mA.fit(wrap(XA * sc))
+        dA = float(mA.average_min_distance)
+        if not (np.isfinite(dA) and dA > 0 and np.isfinite(target) and target > 0):
+            break
+        sc *= float(np.sqrt(target / dA))
+    return sc
+
+
+def fit(em, probs, e, c, variant, d, o, p, r, used=None):
+    """Builds the estimator with random_state=r and fits it; returns the public parameters.  used = the earlier Fit
+    step (same estimator, configuration and seed) whose object is fitted again: the object is first fitted on that
+    step's problem, then on this one."""
     import dask
     import dask.array as da
     pr = probs.get(d)
+    pr0 = probs.get(used["d"]) if used else None
     with dask.config.set(scheduler="synchronous"):
         if e in ("kmeans", "gmm"):
             how, backend = variant.split("/")
-            X = pr["X"][probs.order(len(pr["X"]), o)].copy()
-            if backend == "dask":
-                X = da.from_array(X, chunks=(5, 2))
+            wrap = (lambda a: da.from_array(a, chunks=(5, 2))) if backend == "dask" else (lambda a: a)
+            Xn = pr["X"][probs.order(len(pr["X"]), o)].copy()
+            X = wrap(Xn)
+            XA = pr0["X"][probs.order(len(pr0["X"]), used["o"])].copy() if used else None
             if e == "kmeans":
-                init = pr["init"].copy() if how == "array" else how
-                m = em.KMeansMachine(2, init_method=init, random_state=r, max_iter=pr["km_iter"])
+                def make_km(cap):
+                    init = pr["init"].copy() if how == "array" else how
+                    return em.KMeansMachine(2, init_method=init, random_state=r, max_iter=cap or pr["km_iter"])
+                m = make_km(None)
+                if used:
+                    m.fit(wrap(XA * _coinciding_scale(make_km, XA, Xn, wrap)))
             else:
                 kw = dict(pr["gmm"])
+
+                def make_km(cap):
+                    return em.KMeansMachine(2, init_method="random", random_state=r, max_iter=cap or 3)
                 if how == "trainer-random":
-                    kw["k_means_trainer"] = em.KMeansMachine(2, init_method="random", random_state=r, max_iter=3)
+                    kw["k_means_trainer"] = make_km(None)
                 if how == "twin":   # what the default initialisation is documented to be
                     kw["k_means_trainer"] = em.KMeansMachine(2, random_state=r)
+                if used and how == "trainer-random":
+                    # the configured trainer object has initialised another GMM before
+                    em.GMMMachine(2, random_state=r, **kw).fit(wrap(XA * _coinciding_scale(make_km, XA, Xn, wrap)))
                 m = em.GMMMachine(2, random_state=r, **kw)
                 if how == "explicit":
                     m.means = pr["init"].copy()
@@ -181,12 +216,24 @@ def fit(em, probs, e, c, variant, d, o, p, r):
         perm = probs.order(len(pr["yl"]), o)
         X = pr["Xl"][perm].copy()
         y = np.array(RELABEL[p])[pr["yl"][perm]]
+        X0 = y0 = None
+        if used:
+            perm0 = probs.order(len(pr0["yl"]), used["o"])
+            X0 = pr0["Xl"][perm0].copy() * 1.5 + 0.25
+            y0 = np.array(RELABEL[used["p"]])[pr0["yl"][perm0]]
         if e == "wccn":
             if variant.startswith("labels:"):
-                y = np.array([int(v) for v in variant[7:].split(",")])[y]
+                lab = np.array([int(v) for v in variant[7:].split(",")])
+                y = lab[y]
+                y0 = lab[y0] if used else None
             if variant == "dask":
                 X = da.from_array(X, chunks=(4, 2))
-            m = em.WCCN(pinv=(variant == "pinv")).fit(X, y)
+                X0 = da.from_array(X0, chunks=(4, 2)) if used else None
+            m = em.WCCN(pinv=(variant == "pinv"))
+            if used:
+                m.fit(X0, y0)
+                _gap()
+            m.fit(X, y)
             return observables(e, c, m)
         fa = pr["fa"]
         if c == "given":
@@ -199,16 +246,18 @@ def fit(em, probs, e, c, variant, d, o, p, r):
             m = em.ISVMachine(r_U=fa["r_U"], em_iterations=fa["em_iterations"], random_state=r, **kw)
         else:
             m = em.JFAMachine(r_U=fa["r_U"], r_V=fa["r_V"], em_iterations=fa["em_iterations"], random_state=r, **kw)
+        def train(Xd, yd):
+            if variant == "stats":
+                m.fit(m.ubm.transform(Xd), yd)
+            elif variant == "bag":
+                import dask.bag as db
+                m.fit(db.from_sequence(m.ubm.transform(Xd), npartitions=3), yd)
+            elif variant == "array":
+                m.fit_using_array(Xd, yd)
+            else:
+                m.fit_using_array(da.from_array(Xd, chunks=(4, 2)), yd)
         _gap()
-        if variant == "stats":
-            m.fit(m.ubm.transform(X), y)
-        elif variant == "bag":
-            import dask.bag as db
-            m.fit(db.from_sequence(m.ubm.transform(X), npartitions=3), y)
-        elif variant == "array":
-            m.fit_using_array(X, y)
-        else:
-            m.fit_using_array(da.from_array(X, chunks=(4, 2)), y)
+        train(X, y)
         return observables(e, c, m)
 
 
